@@ -283,7 +283,9 @@ def variantName (v : Variant) : String :=
 /-- `distmatrix` (and its diagnostic twin `distexplain`, whose verdict also names the pair, the entry
 and the published value) -/
 def runMatrix (detail : Bool) (args : List String) (impl : String) : Option Ans :=
-  match args with
+  -- an optional tenth field (rows of an alignment the same model object computed before this one) does not change
+  -- what is expected: the answer is a function of the alignment and the options
+  match args.take 9 with
   | [model, rmGaps, gapMode, rmAmb, gamma, alpha, weights, ranges, rows] => do
     let model ← DModel.ofString model
     let gapMode ← parseInt? gapMode
